@@ -110,10 +110,15 @@ def _alarm(signum: int, frame: T.Any) -> None:
 
 
 def call_guarded(fn: T.Callable[[], T.Any], seconds: float = 10.0) -> T.Tuple[T.Any, str]:
-    """Run fn under a watchdog; returns (value, exception class) with class '' / 'MesonException' / name / 'Timeout'."""
+    """Run fn under a watchdog; returns (value, exception class) with class '' / 'MesonException' / name / 'Timeout'.
+
+    The watchdog counts the CPU time of this process (the box is shared and may be heavily loaded: wall time says
+    nothing), with a generous wall-clock limit as a backstop for a hang that does not burn CPU."""
     from mesonbuild.mesonlib import MesonException
-    old = signal.signal(signal.SIGALRM, _alarm)
-    signal.setitimer(signal.ITIMER_REAL, seconds)
+    old_prof = signal.signal(signal.SIGPROF, _alarm)
+    old_real = signal.signal(signal.SIGALRM, _alarm)
+    signal.setitimer(signal.ITIMER_PROF, seconds)
+    signal.setitimer(signal.ITIMER_REAL, 60 * seconds)
     try:
         return fn(), ''
     except _Timeout:
@@ -123,8 +128,10 @@ def call_guarded(fn: T.Callable[[], T.Any], seconds: float = 10.0) -> T.Tuple[T.
     except Exception as e:  # noqa: BLE001 - the class name is the observation
         return None, type(e).__name__
     finally:
+        signal.setitimer(signal.ITIMER_PROF, 0)
         signal.setitimer(signal.ITIMER_REAL, 0)
-        signal.signal(signal.SIGALRM, old)
+        signal.signal(signal.SIGPROF, old_prof)
+        signal.signal(signal.SIGALRM, old_real)
 
 
 def eval_real(text: str, tp: T.Any, ctgt: T.Any) -> T.Tuple[str, str]:
